@@ -317,6 +317,15 @@ Stage(e) ==
               firstEvalT, pendingV, progS, progF, cancelT, timeoutSeen, retSeen, ret, mS, mF, mD, mSetup, mSetupRes,
               labelsBad, setupCleanupSeen, rvOK>>)
 
+\* an evaluation of the CONFIGURED rate function under a sub-tick distribution (scripted cases): d = its ordinal,
+\* c = time since the first one; it is configured for one value per uinterval_us
+UEval(e) ==
+    /\ why' = why \cup Fails(<<
+          <<Cfg.uinterval_us = 0 \/ e.d <= 1 + ((e.c + 1) \div Cfg.uinterval_us), "C09", "configured-rate-evaluated-more-often-than-its-interval">> >>)
+    /\ Unch(<<lmax, skipped, setupSeen, ids, liveIds, liveH, endedIds, cleaned, succT, failT, sumTicks, lateSum, dropSum, stopSeen, limitSeen,
+              evals, firstEvalT, pendingV, progS, progF, cancelT, timeoutSeen, retSeen, ret, mS, mF, mD, mSetup, mSetupRes,
+              labelsBad, stageCur, stageOpen, setupCleanupSeen, rvOK>>)
+
 Other(e) == why' = why /\
     Unch(<<lmax, skipped, setupSeen, ids, liveIds, liveH, endedIds, cleaned, succT, failT, sumTicks, lateSum, dropSum, stopSeen, limitSeen,
            evals, firstEvalT, pendingV, progS, progF, cancelT, timeoutSeen, retSeen, ret, mS, mF, mD, mSetup, mSetupRes,
@@ -349,6 +358,7 @@ Next == /\ i < Len(T[tr].ev)
              [] e.k = "summary" -> Summary(e)
              [] e.k = "after" -> After(e)
              [] e.k = "stage" -> Stage(e)
+             [] e.k = "ueval" -> UEval(e)
              [] OTHER -> Other(e)
 
 Holds(p) == \A w \in why : w.p # p
